@@ -23,6 +23,7 @@ func propC10(c *Ctx) {
 	c.ruleC10CopyReset()
 	c.ruleC10CopyIdentity()
 	c.ruleC10RulesWithBody()
+	c.ruleNextDirectiveRecognised("C10-NEXT-DIRECTIVE") // a PASTE after an implicit Description must be seen
 }
 
 // ruleC10RulesWithBody: the ENUM rules declared inside a macro belong to its body. Wherever the body of a macro taken
